@@ -777,3 +777,66 @@ def n4b_ok_and_then(text):
         text = apply_edits(text, edits)
         recs.append(dict(rule='N4b', before='X.ok().and_then(|_| B)', after='match X { Ok(_) => B, Err(_) => None }'))
     return text, recs
+
+
+def n1_cfg(text, eval_cfg):
+    """N1: `#[cfg(..)]` attributes inside an extracted item are resolved for the unit's feature set:
+    a true one is dropped, a false one is dropped together with the element it guards
+    (struct field / struct-literal field / statement / nested fn)."""
+    recs = []
+    while True:
+        toks = lex(text)
+        hit = None
+        for k, t in enumerate(toks):
+            if t.text == '#':
+                j = k + 1
+                while toks[j].kind == 'ws':
+                    j += 1
+                if toks[j].text != '[':
+                    continue
+                close = match_close(toks, j)
+                inner = text[toks[j].end:toks[close].start].strip()
+                m = re.match(r'cfg\s*\((.*)\)$', inner, re.S)
+                if not m:
+                    continue
+                hit = (k, close, eval_cfg(m.group(1)))
+                break
+        if hit is None:
+            break
+        k, close, val = hit
+        if val:
+            text = text[:toks[k].start] + text[toks[close].end:]
+            recs.append(dict(rule='N1', before='#[cfg] (true)', after=''))
+            continue
+        # false: delete the guarded element
+        j = close + 1
+        depth = 0
+        end = None
+        while j < len(toks):
+            u = toks[j]
+            if u.kind == 'punct':
+                if u.text in OPEN:
+                    cl = match_close(toks, j)
+                    if u.text == '{' and depth == 0:
+                        end = cl
+                        # a following `,` or `;` belongs to it
+                        n = cl + 1
+                        while n < len(toks) and toks[n].kind == 'ws':
+                            n += 1
+                        if n < len(toks) and toks[n].text in (',', ';'):
+                            end = n
+                        break
+                    j = cl + 1
+                    continue
+                if u.text in (',', ';'):
+                    end = j
+                    break
+                if u.text in CLOSE:
+                    end = j - 1
+                    break
+            j += 1
+        if end is None:
+            end = len(toks) - 1
+        recs.append(dict(rule='N1', before='#[cfg] (false) ' + squash(text[toks[k].start:toks[end].end])[:60], after=''))
+        text = text[:toks[k].start] + text[toks[end].end:]
+    return text, recs
